@@ -66,6 +66,34 @@ def import_exo():
     return exo
 
 
+class HarnessTimeout(Exception):
+    """a call into the real code ran longer than the harness allows (pure-Python non-termination, e.g. the alias
+    chase of new_eff.get_changing_scalars on `aliases[x] = x` after extract_subproc; z3 queries have their own bound)"""
+
+
+class time_limit:
+    """with time_limit(s): … — raises HarnessTimeout in the main thread after s seconds of wall time.  Only wrap
+    calls into the REAL code (never a conversation with a Lean driver: the exception would desynchronise it)."""
+
+    def __init__(self, seconds):
+        self.seconds = seconds
+
+    def _fire(self, signum, frame):
+        raise HarnessTimeout(f"no answer after {self.seconds} s")
+
+    def __enter__(self):
+        import signal
+        self._old = signal.signal(signal.SIGALRM, self._fire)
+        signal.setitimer(signal.ITIMER_REAL, self.seconds)
+        return self
+
+    def __exit__(self, *exc):
+        import signal
+        signal.setitimer(signal.ITIMER_REAL, 0)
+        signal.signal(signal.SIGALRM, self._old)
+        return False
+
+
 def sh(cmd, cwd=None, timeout=3600, env=None, input=None):
     e = dict(os.environ)
     if env:
